@@ -199,7 +199,113 @@ var (
 // argument values by position, all distinct so that a permutation is visible
 var intVariants = [][]int64{nil, {0, -1}, {0, 0}, {-1, -1}, {1, 0}, {0, 1}, {-1, 0}, {7, 7}}
 
+// Cross-shaped argument values: values of one parameter kind that look like another kind (a tag
+// that is a complete digest, a repository that is a digest or a URL, a digest that is a tag, an
+// upload id that is a URL or a digest, a media type, a method name ...).  Funcs validates
+// nothing, so whatever the strings look like the outcome depends on the method's own field only
+// and a set field receives them unchanged.
+const (
+	hex64       = "e3b0c44298fc1c149afbf4c8996fb92427ae41e4649b934ca495991b7852b855"
+	shapedBase  = 100 // variants shapedBase+k: string parameter i takes shapes[(k+i) mod n] (all positions differ)
+	shapedEqual = 200 // variants shapedEqual+k: every string parameter takes shapes[k] (tag == repo == digest ...)
+)
+
+var shapes = []string{
+	"sha256:" + hex64,                  // a complete digest
+	"sha512:" + hex64 + hex64,          // a complete digest of the other algorithm
+	"sha256:abc",                       // digest-like, too short
+	"SHA256:" + strings.ToUpper(hex64), // digest-like, wrong case
+	"foo/bar",                          // a repository name
+	"localhost:5000/foo/bar",           // a repository with a host
+	"latest",                           // a tag
+	"v1.2.3-rc.1_x",                    // a tag with every legal punctuation
+	"foo/bar:latest",                   // a tagged reference
+	"foo/bar@sha256:" + hex64,          // a digest reference
+	"https://reg.example/v2/foo/bar/blobs/uploads/6b3c?_state=abc&digest=sha256:" + hex64, // an upload URL
+	"/v2/foo/bar/blobs/uploads/6b3c",             // a relative upload location
+	"3fa85f64-5717-4562-b3fc-2c963f66afa6",       // an upload id (uuid)
+	"application/vnd.oci.image.manifest.v1+json", // a media type
+	"DeleteManifest",                             // a method name
+	"DeleteTag",                                  // another
+	"_catalog",                                   // a path element of the API
+	"../..",                                      // path traversal
+	"UPPER/Case",                                 // not a legal repository
+	"a b\t%2F\x00\xff",                           // blanks, an escape, NUL, not UTF-8
+	"{\"schemaVersion\":2}",                      // manifest contents
+	"18446744073709551616",                       // a number beyond 64 bits
+	"-1",                                         // a negative number
+	strings.Repeat("a/", 128) + "a",              // a repository longer than the 255 limit
+}
+
+// variants shapedCross+code: the parameter at position i takes cores[digit i-1 of code in base
+// len(cores)]: every combination of the main kinds over the parameters of a method (a legal
+// repository together with a tag that is a digest, ...)
+const shapedCross = 1000
+
+var cores = []string{"foo/bar", "sha256:" + hex64, "latest", "3fa85f64-5717-4562-b3fc-2c963f66afa6",
+	"https://reg.example/v2/foo/bar/blobs/uploads/6b3c?digest=sha256:" + hex64}
+
+func crossShape(variant, i int) string {
+	code := variant - shapedCross
+	for j := 1; j < i; j++ {
+		code /= len(cores)
+	}
+	return cores[code%len(cores)]
+}
+
+// crossCodes lists the codes that differ in the string-like parameters of method m only.
+func crossCodes(m string) []int {
+	mt, _ := reflect.TypeOf((*ociregistry.Funcs)(nil)).MethodByName(m)
+	codes := []int{0}
+	weight := 1
+	for i := 1; i+1 < mt.Type.NumIn(); i++ { // In(0) receiver, In(1) context, In(i+1) = argument i
+		t := mt.Type.In(i + 1)
+		if t == descType || t.Kind() == reflect.String {
+			var next []int
+			for _, c := range codes {
+				for d := range cores {
+					next = append(next, c+d*weight)
+				}
+			}
+			codes = next
+		}
+		weight *= len(cores)
+	}
+	return codes
+}
+
+func shaped(variant int) bool { return variant >= shapedBase && variant < shapedEqual+len(shapes) }
+
+func shapeFor(variant, i int) string {
+	if variant >= shapedEqual {
+		return shapes[(variant-shapedEqual)%len(shapes)]
+	}
+	return shapes[(variant-shapedBase+i)%len(shapes)]
+}
+
 func makeArg(t reflect.Type, i int, variant int, intIdx *int) reflect.Value {
+	if variant >= shapedCross {
+		switch {
+		case t == descType:
+			return reflect.ValueOf(ociregistry.Descriptor{MediaType: fmt.Sprintf("media%d", i),
+				Digest: ociregistry.Digest(crossShape(variant, i)), Size: int64(100 + i)})
+		case t.Kind() == reflect.String:
+			return reflect.ValueOf(crossShape(variant, i)).Convert(t)
+		}
+		variant = 0
+	}
+	if shaped(variant) {
+		switch {
+		case t == descType:
+			return reflect.ValueOf(ociregistry.Descriptor{MediaType: shapeFor(variant, i+1),
+				Digest: ociregistry.Digest(shapeFor(variant, i)), Size: int64(100 + i)})
+		case t.Kind() == reflect.String:
+			return reflect.ValueOf(shapeFor(variant, i)).Convert(t)
+		case t.Kind() == reflect.Slice:
+			return reflect.ValueOf([]byte(shapeFor(variant, i)))
+		}
+		variant = 0
+	}
 	if variant > 0 {
 		switch {
 		case t == descType:
@@ -993,7 +1099,7 @@ func main() {
 	out := hx.NewOut(cfg, "Obs.C20")
 	out.Extra["race_detector"] = raceEnabled
 	if !cfg.Thorough() {
-		out.ShardMax = 900 // one wave of at most 16 coqc processes in the quick tier
+		out.ShardMax = 1400 // one wave of at most 16 coqc processes in the quick tier
 	}
 	record := func(in input, coq string, od []string, subj int, origin string, desc map[string]any, class string) {
 		last := in.Calls[subj]
@@ -1119,6 +1225,35 @@ func main() {
 					add(one(t, call{Method: m, Variant: v}), "args")
 				}
 			}
+		}
+	}
+	// 2b. cross-shaped argument values: every string / digest / descriptor / contents parameter of
+	// every method takes every shape (a digest where a tag is expected, a URL where an upload id is,
+	// ...), the other parameters other shapes (rotation) or the very same value
+	for _, base := range []int{shapedBase, shapedEqual} {
+		for k := range shapes {
+			for _, m := range methods {
+				for ti, t := range tablesFor(m) {
+					if base == shapedEqual && ti == 5 {
+						continue
+					}
+					t.Ctor = ti%2 == 1 || ti == 0
+					if ti == 3 { // all but its own: with and without the constructor
+						add(one(t, call{Method: m, Variant: base + k, Trav: "cs"}), "shaped-args")
+						t.Ctor = false
+					}
+					add(one(t, call{Method: m, Variant: base + k, Trav: "cs"}), "shaped-args")
+				}
+			}
+		}
+	}
+	// 2c. every combination of the main shapes over the parameters of a method
+	for _, m := range methods {
+		for _, code := range crossCodes(m) {
+			c := call{Method: m, Variant: shapedCross + code, Trav: "cs"}
+			add(one(input{Ctor: true}, c), "crossed-args")
+			add(one(input{Set: without(m)}, c), "crossed-args")
+			add(one(input{Ctor: true, Set: []string{m}}, c), "crossed-args")
 		}
 	}
 	// 3. every kind of context: it is handed on untouched and never looked at
@@ -1258,6 +1393,34 @@ func main() {
 			in.Calls = append(in.Calls, c)
 		}
 		add(in, "random")
+	}
+	// 8b. random tables x random histories over the cross-shaped argument values (a loop of its
+	// own so that the draws of the loop above stay what they were)
+	n = 500
+	if cfg.Thorough() {
+		n = 20000
+	}
+	for i := 0; i < n; i++ {
+		var set []string
+		p := rnd.Float64()
+		for _, f := range methods {
+			if rnd.Float64() < p {
+				set = append(set, f)
+			}
+		}
+		in := input{Nil: rnd.Intn(12) == 0, Ctor: rnd.Intn(2) == 0, Set: set}
+		for j, nc := 0, 1+rnd.Intn(4); j < nc; j++ {
+			c := call{Method: methods[rnd.Intn(len(methods))], Variant: shapedBase + rnd.Intn(len(shapes)), Trav: "c"}
+			if rnd.Intn(3) == 0 {
+				c.Variant += shapedEqual - shapedBase
+			}
+			if rnd.Intn(2) == 0 {
+				c.Ctx = ctxKinds[rnd.Intn(len(ctxKinds))]
+			}
+			c.Results = rnd.Intn(4)
+			in.Calls = append(in.Calls, c)
+		}
+		add(in, "random-shaped")
 	}
 	// 9. the tables called from several goroutines at once, in fresh processes (conc.go)
 	concPhase(cfg, out, emitConc)
